@@ -20,18 +20,20 @@ structure OSt where
   workers : Nat := 1
   owner : AList Nat Nat := []
   decs : AList (Nat × Nat) Decision := []
+  sdecs : AList Nat Decision := []        -- graph of StressRelief.GetSampleRate (ext sdec)
 
 def OSt.params (o : OSt) : Params :=
   { decide := fun g t => (AList.get o.decs (g, t)).getD default,
     owner := fun t => (AList.get o.owner t).getD 0,
-    cap := o.cap }
+    cap := o.cap,
+    stressDecide := fun t => (AList.get o.sdecs t).getD default }
 
 def markerStr : Option Bool → String
   | none => "-"
   | some true => "1"
   | some false => "0"
 
-def fwdStr (f : Fwd) : String := s!"{f.sid}:{f.rate}:{markerStr f.marker}"
+def fwdStr (f : Fwd) : String := s!"{f.sid}:{f.rate}:{markerStr f.marker}{if f.stress then ":s" else ""}"
 
 def fwdList (l : List Fwd) : String := if l.isEmpty then "-" else ",".intercalate (l.map fwdStr)
 
@@ -49,6 +51,12 @@ def extDec (exts : List (List String)) (t : Nat) : Option Decision :=
         | some r => some { keep := keep == "1", rate := r, reason := reason }
         | none => none
       else none
+    | _ => none
+
+def extSdec (exts : List (List String)) (t : Nat) : Option Decision :=
+  exts.findSome? fun e => match e with
+    | ["sdec", k, "=", keep, rate] =>
+      if k == toString t then rate.toNat?.map fun r => { keep := keep == "1", rate := r } else none
     | _ => none
 
 def extTook (exts : List (List String)) : Option (List Nat) :=
@@ -106,8 +114,8 @@ def collStep (o : OSt) (op : List String) (exts : List (List String)) : OSt × O
       | some w, some f =>
         let filt := f == "1"
         match AList.get o.owner t with
-        | some w' => if w' != w then (o, some s!"owner-not-a-function was={w'} now={w}") else go o t root client filt
-        | none => go { o with owner := AList.put o.owner t w } t root client filt
+        | some w' => if w' != w then (o, some s!"owner-not-a-function was={w'} now={w}") else go o exts t root client filt
+        | none => go { o with owner := AList.put o.owner t w } exts t root client filt
       | _, _ => (o, none)      -- the implementation answered before routing (rejected / vanished): no prediction
     | _, _ => (o, some "bad-op")
   | ["tick", t] =>
@@ -140,15 +148,27 @@ def collStep (o : OSt) (op : List String) (exts : List (List String)) : OSt × O
       ({ o with s := s' }, some (";".intercalate parts))
   | ["reload", g, d] =>
     match g.toNat? with
-    | some g => ({ o with s := reloadCfg o.s g (d == "1") }, none)
+    | some g => ({ o with s := reloadCfg o.params o.s g (d == "1") }, none)
     | none => (o, some "bad-op")
+  | ["resize", c] =>
+    match c.toNat? with
+    | some c => ({ o with s := resizeCfg o.params o.s c }, none)
+    | none => (o, some "bad-op")
+  | ["stress", b] => ({ o with s := setStress o.s (b == "1") }, none)
   | ["check"] =>
     (o, some s!"buf={natList (dedupSorted (o.s.buf.map (·.trace)))} pending={o.s.toSend.length}")
   | _ => (o, some "bad-op")
 where
-  go (o : OSt) (t : Nat) (root : String) (client : Nat) (filt : Bool) : OSt × Option String :=
+  go (o : OSt) (exts : List (List String)) (t : Nat) (root : String) (client : Nat) (filt : Bool) : OSt × Option String :=
     let exact := o.s.dropped.contains t
     if filt != exact then (o, some s!"dropped-record-inexact recorded={exact} answered={filt}")
+    else if o.s.stressed then
+      match extSdec exts t with
+      | none => (o, some "no-sdec-ext")
+      | some d =>
+        match AList.get o.sdecs t with
+        | some d' => if d' != d then (o, some "stress-decision-not-a-function") else stressGo o t root client filt
+        | none => stressGo { o with sdecs := AList.put o.sdecs t d } t root client filt
     else
       let s' := arrive o.s t (root == "1") client filt
       let obs :=
@@ -159,6 +179,15 @@ where
           | none => "dropped"
         else "dropped"
       ({ o with s := s' }, some obs)
+  stressGo (o : OSt) (t : Nat) (root : String) (client : Nat) (filt : Bool) : OSt × Option String :=
+    let s' := stressArrive o.params o.s t (root == "1") client filt
+    let obs :=
+      if s'.out.length > o.s.out.length then
+        match s'.out.getLast? with
+        | some f => s!"skept {fwdStr f}"
+        | none => "sdrop"
+      else "sdrop"
+    ({ o with s := s' }, some obs)
 
 /-! ## Monitors: the properties' conclusions evaluated on the implementation's observations only -/
 
@@ -171,41 +200,64 @@ structure MSt where
   dry : Bool := false
   everDry : Bool := false
   everWet : Bool := false
+  stressed : Bool := false
   nspans : Nat := 0
   acc : List (Nat × Nat × Nat) := []      -- sid, trace, client rate
   fwdIds : List Nat := []
+  sdropped : List Nat := []               -- sids refused by the stress path (C05's exception)
   decs : List MDec := []
-  missed : List Nat := []                 -- traces re-buffered after a decision (record forgotten)
+  bufd : List Nat := []                   -- traces with buffered spans, as observed
+  missed : List Nat := []                 -- traces whose record was forgotten (re-buffered / decided anew)
+  mixed : List Nat := []                  -- traces that took the stress path while buffered
   fpos : List Nat := []                   -- traces whose span was dropped without a drop decision
-  cap : Nat := 1                          -- configured kept records per worker (case header)
+  cap : Nat := 1                          -- kept records per worker in force (case header, resize ops)
   owner : AList Nat Nat := []             -- routing as observed (ext owner)
-  recent : List Nat := []                 -- kept traces, most recently recorded / looked up first
+  lru : List Nat := []                    -- kept records a correct cache still holds, most recent first
+  survivors : List Nat := []              -- what a correct Resize left in the cache at the last resize
 
 def fail (p sig what : String) : Fail := { prop := p, sig := sig, what := what }
 
-def parseFwd (s : String) : Option (Nat × Nat × String) :=
+structure FwdObs where
+  sid : Nat
+  rate : Nat
+  marker : String
+  stress : Bool
+
+def parseFwd (s : String) : Option FwdObs :=
   match s.splitOn ":" with
   | [a, b, c] => match a.toNat?, b.toNat? with
-    | some a, some b => some (a, b, c)
+    | some a, some b => some ⟨a, b, c, false⟩
+    | _, _ => none
+  | [a, b, c, "s"] => match a.toNat?, b.toNat? with
+    | some a, some b => some ⟨a, b, c, true⟩
     | _, _ => none
   | _ => none
 
-def MSt.touch (m : MSt) (t : Nat) : MSt := { m with recent := t :: m.recent.filter (· != t) }
+def MSt.sameOwner (m : MSt) (t x : Nat) : Bool := AList.get m.owner x == AList.get m.owner t
 
-/-- a kept record can only have been evicted if at least `cap` other kept traces of the same worker
-were recorded or looked up more recently -/
-def MSt.evictable (m : MSt) (t : Nat) : Bool :=
-  let w := AList.get m.owner t
-  let mine := m.recent.filter fun x => AList.get m.owner x == w
-  match mine.idxOf? t with
-  | some i => i >= m.cap
-  | none => true
+/-- hashicorp LRU `Add`/`Get` on the cache of `t`'s worker -/
+def MSt.touch (m : MSt) (t : Nat) : MSt :=
+  let l1 := t :: m.lru.filter (· != t)
+  let mine := l1.filter (m.sameOwner t)
+  if mine.length > m.cap then
+    match mine.getLast? with
+    | some v => { m with lru := l1.filter (· != v) }
+    | none => { m with lru := l1 }
+  else { m with lru := l1 }
+
+/-- a correct `Resize` to `c` per worker: the newest `c` of every worker survive -/
+def resizeList (m : MSt) (c : Nat) : List Nat → List Nat → List Nat
+  | [], _ => []
+  | x :: rest, seen =>
+    if (seen.filter (m.sameOwner x)).length < c then x :: resizeList m c rest (x :: seen)
+    else resizeList m c rest (x :: seen)
 
 def norm1 (n : Nat) : Nat := if n == 0 then 1 else n
 
 /-- one span seen at the transmission; `viaTrace` = the trace whose `tracesToSend` entry carried it -/
-def onForward (m : MSt) (path : String) (viaTrace : Option Nat) (f : Nat × Nat × String) : MSt × List Fail :=
-  let (sid, rate, marker) := f
+def onForward (m : MSt) (path : String) (viaTrace : Option Nat) (f : FwdObs) : MSt × List Fail :=
+  let sid := f.sid
+  let marker := f.marker
   match m.acc.find? (fun a => a.1 == sid) with
   | none => (m, [fail "C02" s!"C02:invented-span:{path}" s!"span {sid} reached the transmission but was never accepted"])
   | some (_, t, client) =>
@@ -214,18 +266,21 @@ def onForward (m : MSt) (path : String) (viaTrace : Option Nat) (f : Nat × Nat 
       (if viaTrace.isSome && viaTrace != some t then [fail "C02" s!"C02:invented-span:{path}" s!"span {sid} of trace {t} forwarded as part of trace {viaTrace.getD 0}"] else []) ++
       (if m.fwdIds.contains sid then [fail "C02" s!"C02:duplicate-forward:{path}" s!"span {sid} of trace {t} forwarded twice"] else []) ++
       (if ds.isEmpty then [fail "C02" s!"C02:undecided-forward:{path}" s!"span {sid} forwarded but trace {t} was never decided"] else []) ++
+      (if f.stress != (path == "stress") then [fail "C05" s!"C05:stressed-flag-wrong:{path}" s!"span {sid}: meta.stressed={f.stress} on the {path} path"] else []) ++
       (if !m.dry then
         (if !ds.isEmpty && ds.all (fun d => !d.keep && !d.dry) then
           [fail "C02" s!"C02:dropped-trace-forwarded:{path}" s!"span {sid} of dropped trace {t} forwarded (dry run off)"] ++
-          (if path == "late" then [fail "C01" "C01:late-span-disobeys:drop-forwarded" s!"late span {sid} forwarded although trace {t} was dropped"] else [])
+          (if path != "drain" then [fail "C01" "C01:late-span-disobeys:drop-forwarded" s!"late span {sid} forwarded although trace {t} was dropped"] else [])
          else []) ++
         (if marker != "-" then [fail "C05" s!"C05:marker-without-dryrun:{path}" s!"span {sid} carries dryrun marker {marker} with dry run off"] else [])
        else
-        (if marker == "-" then [fail "C05" s!"C05:marker-missing:{path}" s!"span {sid} of trace {t} forwarded in dry run without the kept marker"]
+        (if path == "stress" then
+           (if marker != "-" then [fail "C05" "C05:marker-on-stress-path" s!"span {sid} kept by stress relief carries dryrun marker {marker}"] else [])
+         else if marker == "-" then [fail "C05" s!"C05:marker-missing:{path}" s!"span {sid} of trace {t} forwarded in dry run without the kept marker"]
          else if !ds.isEmpty && !(ds.any fun d => d.keep == (marker == "1")) then
-           [fail "C05" s!"C05:marker-wrong:{path}" s!"span {sid} of trace {t} marked kept={marker} but the sampler never decided that"]
+           [fail "C05" s!"C05:marker-wrong:{path}" s!"span {sid} of trace {t} marked kept={marker} but no such decision was made"]
          else []) ++
-        (if norm1 rate != norm1 client then [fail "C05" s!"C05:rate-changed:{path}" s!"span {sid} forwarded in dry run with rate {rate}, client sent {client}"] else []))
+        (if norm1 f.rate != norm1 client then [fail "C05" s!"C05:rate-changed:{path}" s!"span {sid} forwarded in dry run with rate {f.rate}, client sent {client}"] else []))
     ({ m with fwdIds := sid :: m.fwdIds }, fails)
 
 def onForwards (m : MSt) (path : String) (via : Option Nat) (l : String) : MSt × List Fail :=
@@ -241,7 +296,8 @@ def onTook (m : MSt) (entries : String) : MSt :=
     match tok.splitOn ":" with
     | t :: k :: _ => match t.toNat? with
       | some t =>
-        let m := { m with decs := m.decs ++ [{ trace := t, keep := k == "k", dry := m.dry }] }
+        let m := { m with decs := m.decs ++ [{ trace := t, keep := k == "k", dry := m.dry }],
+                          bufd := m.bufd.filter (· != t) }
         if k == "k" then m.touch t else m
       | none => m
     | _ => m) m
@@ -252,8 +308,9 @@ def quiescenceChecks (m : MSt) (bufd : List Nat) : List Fail :=
     if bufd.contains t then fs else
     let sids := (m.acc.filter (·.2.1 == t)).map (·.1)
     let nf := (sids.filter m.fwdIds.contains).length
+    let nsd := (sids.filter m.sdropped.contains).length
     let ds := m.decs.filter (·.trace == t)
-    let remembered := !m.missed.contains t && !m.fpos.contains t
+    let remembered := !m.missed.contains t && !m.fpos.contains t && !m.mixed.contains t
     fs ++
     (if remembered && !ds.isEmpty && ds.all (·.keep) && nf != sids.length then
       [fail "C02" "C02:kept-span-lost" s!"trace {t} was kept but only {nf} of its {sids.length} accepted spans were forwarded"] else []) ++
@@ -261,8 +318,22 @@ def quiescenceChecks (m : MSt) (bufd : List Nat) : List Fail :=
       [fail "C02" "C02:never-decided" s!"trace {t} left the collector without a decision"] else []) ++
     (if remembered && !m.everDry && nf != 0 && nf != sids.length then
       [fail "C01" "C01:split-decision" s!"trace {t}: {nf} of {sids.length} accepted spans forwarded (neither all nor none)"] else []) ++
-    (if !m.everWet && nf != sids.length then
-      [fail "C05" "C05:span-not-forwarded" s!"dry run: trace {t} had {sids.length} accepted spans, {nf} forwarded"] else [])) []
+    (if !m.everWet && nf + nsd != sids.length then
+      [fail "C05" "C05:span-not-forwarded" s!"dry run: trace {t} had {sids.length} accepted spans, {nf} forwarded, {nsd} dropped by stress relief"] else [])) []
+
+/-- the record of `t` was found missing (a span was buffered, or stress relief decided it anew) -/
+def onMiss (m : MSt) (sid t : Nat) (d : MDec) (what : String) : MSt × List Fail :=
+  let fails :=
+    if m.missed.contains t then []
+    else if !d.keep then
+      [fail "C01" "C01:drop-decision-forgotten" s!"span {sid} of dropped trace {t} {what}"]
+    else if m.lru.contains t then
+      if m.survivors.contains t then
+        [fail "C01" "C01:kept-decision-forgotten-after-resize" s!"span {sid} of kept trace {t} {what} although its record was among the newest {m.cap} of its worker at the last resize"]
+      else
+        [fail "C01" "C01:kept-decision-forgotten" s!"span {sid} of kept trace {t} {what} although its record cannot have been evicted (capacity {m.cap})"]
+    else []
+  ({ m with missed := t :: m.missed, lru := m.lru.filter (· != t) }, fails)
 
 def collMon (m : MSt) (op : List String) (exts : List (List String)) (obs : Option String) : MSt × List Fail :=
   match op, obs with
@@ -277,28 +348,22 @@ def collMon (m : MSt) (op : List String) (exts : List (List String)) (obs : Opti
         | some w => if (AList.get m.owner t).isNone then { m with owner := AList.put m.owner t w } else m
         | none => m
       let ds := m.decs.filter (·.trace == t)
+      let remembered := !m.missed.contains t && !m.fpos.contains t && !m.mixed.contains t
       match toks with
       | ["buf", _] =>
-        -- a span of an already decided trace was buffered as a new trace: the record was forgotten.
-        -- With the harness' sizes that is only legitimate for a kept record pushed out of the LRU.
-        match ds.getLast? with
-        | none => (m, [])
-        | some d =>
-          let alreadyMissed := m.missed.contains t
-          let fails :=
-            if alreadyMissed then []
-            else if !d.keep then
-              [fail "C01" "C01:drop-decision-forgotten" s!"span {sid} of dropped trace {t} was buffered as a new trace"]
-            else if !m.evictable t then
-              [fail "C01" "C01:kept-decision-forgotten" s!"span {sid} of kept trace {t} was buffered as a new trace although its record cannot have been evicted (capacity {m.cap})"]
-            else []
-          ({ m with missed := t :: m.missed }, fails)
+        -- a span of an already decided trace buffered as a new trace means the record was forgotten;
+        -- with the harness' sizes that is only legitimate for a kept record pushed out of the LRU
+        if m.bufd.contains t then (m, [])       -- the trace is live: the record is not consulted
+        else
+          let m := { m with bufd := t :: m.bufd }
+          match ds.getLast? with
+          | none => (m, [])
+          | some d => onMiss m sid t d "was buffered as a new trace"
       | ["late", f] =>
         let (m', fs) := onForwards m "late" none f
         -- served from the kept record (which the lookup makes most recently used) unless marked kept=false
-        (if (parseFwd f).map (·.2.2) != some "0" then m'.touch t else m', fs)
+        (if (parseFwd f).map (·.marker) != some "0" then m'.touch t else m', fs)
       | ["dropped"] =>
-        let remembered := !m.missed.contains t && !m.fpos.contains t
         let fails :=
           (if m.dry then [fail "C05" "C05:late-span-dropped-in-dryrun" s!"span {sid} of trace {t} dropped although dry run is on"] else []) ++
           (if ds.isEmpty then [fail "C02" "C02:undecided-span-dropped" s!"span {sid} dropped as late span of trace {t}, which was never decided"]
@@ -306,6 +371,37 @@ def collMon (m : MSt) (op : List String) (exts : List (List String)) (obs : Opti
              [fail "C01" "C01:late-span-disobeys:keep-dropped" s!"late span {sid} dropped although trace {t} was kept"]
            else [])
         (if ds.any (fun d => !d.keep) then m else { m with fpos := t :: m.fpos }, fails)
+      | "skept" :: _ | ["sdrop"] =>
+        -- the stress path (ProcessSpanImmediately): obeys a record if there is one, else decides
+        let kept := toks.head? == some "skept"
+        let m := if m.bufd.contains t then { m with mixed := t :: m.mixed } else m
+        let expectRecord : Bool := match ds.getLast? with
+          | none => false
+          | some d => if d.keep then m.lru.contains t else true
+        let (m, fs0) : MSt × List Fail :=
+          if expectRecord then
+            -- must obey: kept record → forwarded, dropped record → refused
+            let want := (ds.getLast?.map (·.keep)).getD true
+            if remembered && want != kept then
+              if want then
+                -- kept record expected but the span was refused: either disobeyed or the record is gone
+                match ds.getLast? with
+                | some d => let (m', fs) := onMiss m sid t d "was decided anew by stress relief"
+                            ({ m' with decs := m'.decs ++ [{ trace := t, keep := kept, dry := m.dry }] }, fs)
+                | none => (m, [])
+              else (m, [fail "C01" "C01:late-span-disobeys:drop-forwarded" s!"span {sid} kept by the stress path although trace {t} was dropped"])
+            else (m, [])
+          else
+            -- no record a correct cache would still hold: this is a (new) decision
+            let m := if ds.isEmpty then m else { m with missed := t :: m.missed }
+            ({ m with decs := m.decs ++ [{ trace := t, keep := kept, dry := m.dry }] }, [])
+        if kept then
+          match toks with
+          | [_, f] =>
+            let (m', fs) := onForwards m "stress" none f
+            (m'.touch t, fs0 ++ fs)
+          | _ => (m, fs0 ++ [fail "C02" "C02:span-outcome-unreadable" s!"span {sid}: {o}"])
+        else ({ m with sdropped := sid :: m.sdropped }, fs0)
       | _ => (m, [fail "C02" "C02:span-outcome-unreadable" s!"span {sid}: {o}"])
     | _, _ => (m, [])
   | "tick" :: _, some o | "tickw" :: _, some o | "eject" :: _, some o =>
@@ -323,6 +419,14 @@ def collMon (m : MSt) (op : List String) (exts : List (List String)) (obs : Opti
   | ["reload", _, d], _ =>
     let dry := d == "1"
     ({ m with dry := dry, everDry := m.everDry || dry, everWet := m.everWet || !dry }, [])
+  | ["resize", c], _ =>
+    match c.toNat? with
+    | some c =>
+      if c == 0 then (m, []) else
+      let l := resizeList m c m.lru []
+      ({ m with cap := c, lru := l, survivors := l }, [])
+    | none => (m, [])
+  | ["stress", b], _ => ({ m with stressed := b == "1" }, [])
   | ["check"], some o =>
     let toks := o.splitOn " "
     if (kv toks "pending") == some "0" then
@@ -334,7 +438,7 @@ def comp : Component OSt MSt where
   init := fun args =>
     let n := fun k d => ((kv args k).bind String.toNat?).getD d
     let dry := n "dry" 0 == 1
-    { s := init dry, cap := n "cap" 1, workers := max (n "workers" 1) 1 }
+    { s := init dry (n "cap" 1), cap := n "cap" 1, workers := max (n "workers" 1) 1 }
   step := collStep
   minit := fun args =>
     let dry := (kv args "dry") == some "1"
